@@ -477,6 +477,23 @@ func TestCheck(t *testing.T) {
 		runFamily(r, f)
 		climb(r, f, steps)
 	}
+	// committed corpus: every entry is metered too and judged with the global constants
+	nc := 0
+	for _, ce := range [][2]string{{"v6", "v6"}, {"v4", "v4"}} {
+		for i, b := range mon.Corpus(ce[0]) {
+			nc++
+			if !r.Mine(i) {
+				continue
+			}
+			rp := replay{Family: "corpus-" + ce[0], N: len(b), Fam: ce[1]}
+			if len(b) <= 8192 {
+				rp.Input = mon.Hex(b)
+			}
+			curCase.Store(&rp)
+			judge(r, rp, measure(ce[1], b))
+		}
+	}
+	r.Set("corpus_entries", nc)
 	r.Set("families", len(families))
 	r.Set("global_bounds", map[string]int64{"Ka": Ka, "Kd": Kd, "Ca": Ca, "Kr": Kr, "Cr": Cr})
 	r.Set("family_bounds_ka_kd_kr", famBounds)
